@@ -69,9 +69,23 @@ func Identities() []*Ident {
 	return idents
 }
 
-// SignNode signs a node-style request.
+var sigCache sync.Map
+
+func cachedSign(k *ecdsa.PrivateKey, method, named string, nonce int64, args ...interface{}) (string, error) {
+	key := fmt.Sprintf("%p|%s|%s|%d|%s", k, method, named, nonce, JSON(args))
+	if v, ok := sigCache.Load(key); ok {
+		return v.(string), nil
+	}
+	sig, err := request.Sign(k, method, named, nonce, args...)
+	if err == nil {
+		sigCache.Store(key, sig)
+	}
+	return sig, err
+}
+
+// SignNode signs a node-style request (deterministic RFC 6979 signatures are cached).
 func (id *Ident) SignNode(method string, nonce int64, args ...interface{}) string {
-	sig, err := request.Sign(id.Key, method, id.NodeID, nonce, args...)
+	sig, err := cachedSign(id.Key, method, id.NodeID, nonce, args...)
 	if err != nil {
 		panic(err)
 	}
@@ -80,7 +94,7 @@ func (id *Ident) SignNode(method string, nonce int64, args ...interface{}) strin
 
 // SignWallet signs a wallet-style request.
 func (id *Ident) SignWallet(method string, nonce int64, args ...interface{}) string {
-	sig, err := request.Sign(id.Key, method, id.Wallet, nonce, args...)
+	sig, err := cachedSign(id.Key, method, id.Wallet, nonce, args...)
 	if err != nil {
 		panic(err)
 	}
@@ -114,31 +128,53 @@ const (
 
 var Drivers = []string{Memory, Badger}
 
-var badgerPool struct {
-	mu sync.Mutex
-	s  store.Store
+type badgerSlot struct {
+	s    store.Store
+	uses int
 }
 
-// NewStore returns a fresh store of the driver. The badger driver (in-memory mode) is a single
+var badgerPool struct {
+	mu    sync.Mutex
+	slots map[int]*badgerSlot
+}
+
+// NewStore returns a fresh store of the driver. The badger driver (in-memory mode) is a
 // per-process instance that is emptied (every key except the format version deleted) on each call:
-// opening a new database costs ~35 ms, deleting its keys ~0.1 ms.
-func NewStore(driver string) store.Store {
+// opening a new database costs ~35 ms, deleting its keys ~0.1 ms. Worlds that must coexist use
+// different slots (NewStoreSlot).
+func NewStore(driver string) store.Store { return NewStoreSlot(driver, 0) }
+
+func NewStoreSlot(driver string, slot int) store.Store {
 	switch driver {
 	case Memory:
 		return memory.New()
 	case Badger:
 		badgerPool.mu.Lock()
 		defer badgerPool.mu.Unlock()
-		if badgerPool.s == nil {
+		if badgerPool.slots == nil {
+			badgerPool.slots = map[int]*badgerSlot{}
+		}
+		sl := badgerPool.slots[slot]
+		if sl == nil {
+			sl = &badgerSlot{}
+			badgerPool.slots[slot] = sl
+		}
+		sl.uses++
+		if sl.s != nil && sl.uses%150 == 0 {
+			// deleted versions pile up in the memtable and slow every iterator down: start afresh
+			sl.s.Close()
+			sl.s = nil
+		}
+		if sl.s == nil {
 			s, err := badger.Open(badgerdb.DefaultOptions("").WithInMemory(true).WithLogger(nil))
 			if err != nil {
 				panic(err)
 			}
-			badgerPool.s = s
+			sl.s = s
 		} else {
-			BadgerReset(badgerPool.s)
+			BadgerReset(sl.s)
 		}
-		return badgerPool.s
+		return sl.s
 	}
 	panic("unknown driver " + driver)
 }
@@ -226,3 +262,8 @@ func StoreDump(s store.Store) string {
 func IsBadger(s store.Store) bool { return BadgerDB(s) != nil }
 
 var _ = bytes.NewReader
+
+// SignAs signs with this identity's key a request that names another identity (a forgery).
+func (id *Ident) SignAs(method, named string, nonce int64, args ...interface{}) (string, error) {
+	return cachedSign(id.Key, method, named, nonce, args...)
+}
